@@ -3,7 +3,7 @@ Theorems: coq/Properties/C10.v.  Correspondence: corr:dispatcher-step (real hand
 H2 vs `fold dstep`), corr:cancel-reason-ord (36 + 49 pairs), corr:max-fail.  Oracle: C10's own text
 evaluated on what the implementation did (props/dispatcher_common.oracle_c10)."""
 import json
-import vlib
+import vlib, gen_tie
 from props import dispatcher_common as dc
 from props.dispatcher_common import REASONS, RANK
 
@@ -280,6 +280,10 @@ def run(tier, seed):
     chk = vlib.Check(PROP, tier, seed)
     gate = vlib.coq_gate(PROP, extra_targets=dc.EXTRA_TARGETS)
     vlib.gate_or_violation(chk, gate)
+    # DESIGN 11.7: these decision functions are regenerated from the Rust source and proved equal to the
+    # model's for all inputs; a failure is reported when the check finishes unless a stage below finds a
+    # concrete failing input
+    gen_tie.gate(chk, ['cancel_reason_rank', 'is_exceeded', 'event_to_cancel_reason', 'to_request', 'failed_count'], gate)
     binary, err = vlib.build_harness()
     if binary is None:
         chk.violation("broken-obligation", "harness-build", dict(error=err), no_input=True)
